@@ -178,6 +178,15 @@ func c17RetryCases() []c17Case {
 		sc.Name = fmt.Sprintf("retry global-timeout-spans-retries global=%d try=100", g)
 		out = append(out, c17Case{Kind: "timeout-spans", Sc: sc, WantTimeoutMs: int64(g), WantAttempts: 1 + g/110})
 	}
+	// a request refused by the circuit breaker (pool overflow) is not one of the configured retry
+	// conditions: it is answered at once and never reaches an upstream, whatever the retry policy says.
+	// t1 holds the only request slot for 5 ms (virtual), t2 arrives meanwhile.
+	for _, nr := range []int{1, 3} {
+		sc := hpScenario{Hosts: 1, MaxRequests: 1, RouteTimeoutMs: 60000, RetryOn: true, NumRetries: nr, ReplyDelayMs: 5,
+			Requests: []hpRequest{{Token: "t1", Script: []string{upDelayOK}}, {Token: "t2", Script: []string{upReply200}}}}
+		sc.Name = fmt.Sprintf("retry overflow-is-not-retried num_retries=%d", nr)
+		out = append(out, c17Case{Kind: "overflow", Sc: sc})
+	}
 	// freshly chosen host: the first attempt's host is ejected before the retry is decided
 	for _, o := range []string{upReplyBusy, upClose, upSilent} {
 		sc := hpScenario{Hosts: 2, RouteTimeoutMs: 60000, TryTimeoutMs: 100, RetryOn: true, NumRetries: 1, EjectFirstHost: true,
@@ -414,6 +423,21 @@ func c17Eval(p *vreport.Part, c c17Case, bound int) {
 			}
 			if present != wantPresent || (present && got != want) {
 				report(fmt.Sprintf("headers: route-level %s header %s not applied as configured", side, mode), fmt.Sprintf("present=%v value=%q, expected present=%v value=%q", present, got, wantPresent, want))
+			}
+		case "overflow":
+			if r.Cost != 0 {
+				return // the default schedule puts t2 behind t1's admission; other orders are C10's subject
+			}
+			var second []hpFrame
+			for _, f := range obs.DownFrames {
+				if f.ID == 101 {
+					second = append(second, f)
+				}
+			}
+			if obs.Attempts["t2"] != 0 {
+				report("retry: a request refused by the circuit breaker (overflow) was retried / sent upstream", fmt.Sprintf("%d upstream frames for t2, downstream %v", obs.Attempts["t2"], second))
+			} else if len(second) == 1 && second[0].Status == uint16(bolt.ResponseStatusSuccess) {
+				report("retry: a request refused by the circuit breaker (overflow) was answered as success", fmt.Sprint(second))
 			}
 		case "direct":
 			if len(atts) != 0 {
